@@ -10,7 +10,7 @@ R19g iterated S2K hashing: salt+passphrase is hashed completely at least once (R
      only the repetitions are cut off at the octet count,
 R19f fingerprint framing: v4 = SHA-1 over 0x99 | 2-octet length | body, v5 = SHA-256 over 0x9A |
      4-octet length | body; key ids are the low 64 bits (v4) / high 64 bits (v5) of the fingerprint."""
-from .. import evalx
+from .. import evalx, seqeval
 from ..pieceeval import PieceEval
 from ..facts import walk, AnalysisBroken
 
@@ -186,33 +186,50 @@ def r19b(ctx):
 
 
 def r19c(ctx):
+    """iterated S2K count: in the S2K routines every shift expression over one octet-typed parameter
+    (named local constants substituted) is a candidate for the count formula and is evaluated for all
+    256 octets; the routine is fine when a candidate equals the formula of RFC 4880 3.7.1.3"""
     prog = ctx.prog
     found = 0
     for key, f in prog.funcs.items():
-        if 'RFC4880' not in f['file']:
+        if 'RFC4880' not in f['file'] or 'S2K' not in f['q'].split('::')[-1] or not f.get('body'):
             continue
+        octs = set(p['id'] for p in f['params'] if p['t'].replace('const ', '').strip() in ('unsigned char', 'tmcg_openpgp_byte_t'))
+        cenv = local_consts(f)
+        cands = []
         for e in walk(f.get('body')):
             if e.get('k') == 'bin' and e.get('op') == '<<':
                 txt = list(walk(e))
-                if any(x.get('k') == 'bin' and x.get('op') == '&' and any(y.get('k') == 'int' and y.get('v') == 15 for y in x['a']) for x in txt) and \
-                        any(x.get('k') == 'bin' and x.get('op') == '>>' and any(y.get('k') == 'int' and y.get('v') == 4 for y in x['a']) for x in txt):
-                    vars_ = set(x['id'] for x in txt if x.get('k') == 'var')
-                    if len(vars_) != 1:
-                        continue
-                    vid = vars_.pop()
-                    found += 1
-                    bad = None
-                    for c in range(256):
-                        got = evalx.ev(e, {vid: c})
-                        want = (16 + (c & 15)) << ((c >> 4) + 6)
-                        if got != want:
-                            bad = (c, got, want)
-                            break
-                    key2 = 'R19c:%s' % f['q']
-                    if bad:
-                        ctx.bad('R19c', key2, 'iterated S2K count for octet %d is %d, RFC 4880 section 3.7.1.3 prescribes %d' % bad, f, line=e.get('l'))
-                    else:
-                        ctx.ok('R19c', key2, 'S2K count expression equals (16 + (c & 15)) << ((c >> 4) + 6) for all 256 octets', f, line=e.get('l'))
+                vars_ = set(x['id'] for x in txt if x.get('k') == 'var' and x['id'] not in cenv)
+                if len(vars_) == 1 and vars_ <= octs and not any(x.get('k') in ('call', 'mcall', 'opcall', 'idx') for x in txt):
+                    cands.append((e, next(iter(vars_))))
+        if not cands:
+            continue
+        found += 1
+        key2 = 'R19c:%s' % f['q']
+        firstbad = None
+        good = None
+        for e, vid in cands:
+            bad = None
+            try:
+                for c in range(256):
+                    got = evalx.ev(e, dict(cenv, **{}) | {vid: c})
+                    want = (16 + (c & 15)) << ((c >> 4) + 6)
+                    if got != want:
+                        bad = (c, got, want)
+                        break
+            except evalx.NotEvaluable:
+                continue
+            if bad is None:
+                good = e
+                break
+            firstbad = firstbad or (e, bad)
+        if good is not None:
+            ctx.ok('R19c', key2, 'S2K count expression equals (16 + (c & 15)) << ((c >> 4) + 6) for all 256 octets', f, line=good.get('l'))
+        elif firstbad is not None:
+            ctx.bad('R19c', key2, 'iterated S2K count for octet %d is %d, RFC 4880 section 3.7.1.3 prescribes %d' % firstbad[1], f, line=firstbad[0].get('l'))
+        else:
+            found -= 1
     ctx.floor('R19c', found, 1)
 
 
@@ -306,28 +323,70 @@ def is_end_of(x, vid):
     return isinstance(x, dict) and x.get('k') == 'mcall' and x['f'].split('::')[-1] in ('end', 'cend') and unwrap_iter(x.get('o')).get('id') == vid
 
 
-def ptr_offset(x, vid):
-    """constant K of the pointer expression  p + K  (or plain p: 0); vid=None accepts any base variable"""
+def const_of(x, env=None):
+    x = unwrap_iter(x)
+    if isinstance(x, dict) and x.get('k') == 'int':
+        return x['v']
+    if env is not None and isinstance(x, dict):
+        try:
+            return int(evalx.ev(x, env))
+        except evalx.NotEvaluable:
+            return None
+    return None
+
+
+def ptr_offset(x, vid, env=None):
+    """constant K of the pointer expression  p + K  (or plain p: 0); vid=None accepts any base variable;
+    K may be a named constant whose value env holds"""
     x = unwrap_iter(x)
     if isinstance(x, dict) and x.get('k') == 'var' and (vid is None or x.get('id') == vid):
         return 0
     if isinstance(x, dict) and x.get('k') in ('bin', 'opcall') and x.get('op') == '+' and len(x.get('a', [])) == 2:
         a0, a1 = unwrap_iter(x['a'][0]), unwrap_iter(x['a'][1])
-        if isinstance(a0, dict) and a0.get('k') == 'var' and (vid is None or a0.get('id') == vid) and isinstance(a1, dict) and a1.get('k') == 'int':
-            return a1['v']
+        if isinstance(a0, dict) and a0.get('k') == 'var' and (vid is None or a0.get('id') == vid):
+            return const_of(a1, env)
     return None
 
 
-def iter_offset(x):
+def iter_offset(x, env=None):
     """constant K of  v.begin() + K  (or v.begin(): 0)"""
     x = unwrap_iter(x)
     if isinstance(x, dict) and x.get('k') == 'mcall' and x['f'].split('::')[-1] in ('begin', 'cbegin'):
         return 0
     if isinstance(x, dict) and x.get('k') in ('bin', 'opcall') and x.get('op') == '+' and len(x.get('a', [])) == 2:
         a0, a1 = unwrap_iter(x['a'][0]), unwrap_iter(x['a'][1])
-        if isinstance(a0, dict) and a0.get('k') == 'mcall' and a0['f'].split('::')[-1] in ('begin', 'cbegin') and isinstance(a1, dict) and a1.get('k') == 'int':
-            return a1['v']
+        if isinstance(a0, dict) and a0.get('k') == 'mcall' and a0['f'].split('::')[-1] in ('begin', 'cbegin'):
+            return const_of(a1, env)
     return None
+
+
+def local_consts(f, call=None):
+    """values of the named constants declared in a function (const size_t hashlen = 20;)"""
+    env = {}
+    for st in walk(f['body']):
+        if st.get('k') == 'decl':
+            for v in st['v']:
+                if v.get('init') is not None and 'const' in v.get('t', '') and '*' not in v.get('t', '') and '&' not in v.get('t', ''):
+                    try:
+                        env[v['id']] = evalx.wrap(evalx.ev(v['init'], env, call), v['t'].replace('const ', '').strip())
+                    except evalx.NotEvaluable:
+                        pass
+    return env
+
+
+class _HashBufEval(seqeval.SeqEval):
+    """the octet vector handed to gcry_md_hash_buffer (as &v[0] / v.data()) at the call"""
+    def __init__(self, prog, f, sizes, hcall, bid):
+        super().__init__(prog, f, sizes)
+        self.hcall, self.bid, self.snap = hcall, bid, None
+
+    def stmt(self, s):
+        if s is None or self.snap is not None:
+            return
+        if s.get('k') not in ('block', 'if', 'for', 'while') and any(x is self.hcall for x in walk(s)):
+            self.snap = (list(self.vecs.get(self.bid, [])), self.ev(self.hcall['a'][3]))
+            return
+        super().stmt(s)
 
 
 def r19f(ctx):
@@ -361,70 +420,108 @@ def r19f(ctx):
         problems = []
         if not (isinstance(al, dict) and al.get('n') == algo):
             problems.append('hash algorithm is %s, the standard prescribes %s' % (al.get('n', al.get('v')) if isinstance(al, dict) else '?', algo))
-        if not (isinstance(buf, dict) and buf.get('k') == 'var'):
+        vbuf = None
+        if isinstance(buf, dict) and buf.get('k') == 'un' and buf.get('op') == '&':
+            b2 = strip(buf['a'][0])
+            if isinstance(b2, dict) and (b2.get('k') == 'idx' or (b2.get('k') == 'opcall' and b2.get('op') == '[]')) and const_of(b2['a'][1]) == 0:
+                vbuf = strip(b2['a'][0])
+        elif isinstance(buf, dict) and buf.get('k') == 'mcall' and buf['f'].split('::')[-1] == 'data':
+            vbuf = strip(buf.get('o'))
+        if isinstance(vbuf, dict) and vbuf.get('k') == 'var' and 'vector<unsigned char' in vbuf.get('t', ''):
+            # the hash input is built in a local octet vector: evaluate the builder for each body length
+            for N in sizes:
+                try:
+                    se = _HashBufEval(prog, f, {inp['n']: N}, hcall, vbuf['id'])
+                    se.run()
+                except evalx.NotEvaluable as ex:
+                    problems = None
+                    ctx.note('R19f', key, 'hash input builder not evaluable (%s); framing not evaluated' % ex, f)
+                    break
+                if se.snap is None:
+                    problems = None
+                    ctx.note('R19f', key, 'hash call not reached by the evaluation; framing not evaluated', f)
+                    break
+                got, hl = se.snap
+                want = [tagoct] + [(N >> (8 * (nlen - 1 - j))) & 0xFF for j in range(nlen)] + [('blk', inp['n'])]
+                if got != want:
+                    problems.append('for a %d-octet key body the hash input is %s, the standard prescribes %s' % (N, got, want))
+                    break
+                if hl != N + 1 + nlen:
+                    problems.append('for a %d-octet key body %d octets are hashed instead of %d' % (N, hl, N + 1 + nlen))
+                    break
+            if problems is None:
+                continue
+            buf = None
+        elif not (isinstance(buf, dict) and buf.get('k') == 'var'):
             ctx.note('R19f', key, 'hash input buffer is not a plain variable; framing not evaluated', f)
             continue
-        bid = buf['id']
-        consts = {}
-        body_off = None
-        for st in walk(f['body']):
-            if st.get('k') == 'bin' and st.get('op') == '=' and st['a'][0].get('k') == 'idx' and strip(st['a'][0]['a'][0]).get('id') == bid:
-                ie = st['a'][0]['a'][1]
-                rhs = strip(st['a'][1])
-                if ie.get('k') == 'int':
-                    consts[ie['v']] = st['a'][1]
-                elif rhs.get('k') in ('idx', 'opcall') and strip(rhs['a'][0]).get('id') == inp['id']:
-                    # buffer[OFF + i] = in[i]
-                    iv = strip(rhs['a'][1])
-                    if iv.get('k') == 'var':
-                        try:
-                            body_off = evalx.ev(ie, {iv['id']: 0})
-                        except evalx.NotEvaluable:
-                            body_off = None
-        if body_off is None:
-            # std::copy(in.begin(), in.end(), buffer + OFF)  /  memcpy(buffer + OFF, &in[0], in.size())
+        bid = buf['id'] if buf is not None else None
+        if bid is not None:
+            consts = {}
+            body_off = None
             for st in walk(f['body']):
-                if st.get('k') == 'call' and st.get('f', '').split('::')[-1] == 'copy' and len(st.get('a', [])) == 3:
-                    b0, b1, dst = [unwrap_iter(x) for x in st['a']]
-                    if is_begin_of(b0, inp['id']) and is_end_of(b1, inp['id']):
-                        off = ptr_offset(dst, bid)
-                        if off is not None:
-                            body_off = off
-        if body_off is None:
-            ctx.note('R19f', key, 'copy of the key material into the hash buffer not recognised; framing not evaluated', f)
-            continue
+                if st.get('k') == 'bin' and st.get('op') == '=' and st['a'][0].get('k') == 'idx' and strip(st['a'][0]['a'][0]).get('id') == bid:
+                    ie = st['a'][0]['a'][1]
+                    rhs = strip(st['a'][1])
+                    if ie.get('k') == 'int':
+                        consts[ie['v']] = st['a'][1]
+                    elif rhs.get('k') in ('idx', 'opcall') and strip(rhs['a'][0]).get('id') == inp['id']:
+                        # buffer[OFF + i] = in[i]
+                        iv = strip(rhs['a'][1])
+                        if iv.get('k') == 'var':
+                            try:
+                                body_off = evalx.ev(ie, dict(list(local_consts(f).items()) + [(iv['id'], 0)]))
+                            except evalx.NotEvaluable:
+                                body_off = None
+            if body_off is None:
+                # std::copy(in.begin(), in.end(), buffer + OFF)  /  memcpy(buffer + OFF, &in[0], in.size())
+                for st in walk(f['body']):
+                    if st.get('k') == 'call' and st.get('f', '').split('::')[-1] == 'copy' and len(st.get('a', [])) == 3:
+                        b0, b1, dst = [unwrap_iter(x) for x in st['a']]
+                        if is_begin_of(b0, inp['id']) and is_end_of(b1, inp['id']):
+                            off = ptr_offset(dst, bid, local_consts(f))
+                            if off is not None:
+                                body_off = off
+            if body_off is None:
+                ctx.note('R19f', key, 'copy of the key material into the hash buffer not recognised; framing not evaluated', f)
+                continue
 
-        for N in sizes:
-            def call(e, env, N=N):
-                if e.get('k') == 'mcall' and e['f'].split('::')[-1] == 'size' and strip(e['o']).get('id') == inp['id']:
-                    return N
-                raise evalx.NotEvaluable('call')
-            try:
-                got = [evalx.ev(consts[k2], {}, call) & 0xFF if k2 in consts else None for k2 in range(body_off)]
-                hl = evalx.ev(hcall['a'][3], {}, call)
-            except evalx.NotEvaluable as ex:
-                problems.append('not evaluable: %s' % ex)
-                break
-            want = [tagoct] + [(N >> (8 * (nlen - 1 - j))) & 0xFF for j in range(nlen)]
-            if got != want:
-                problems.append('for a %d-octet key body the hash input starts with %s, the standard prescribes %s' % (N, got, want))
-                break
-            if hl != N + 1 + nlen:
-                problems.append('for a %d-octet key body %d octets are hashed instead of %d' % (N, hl, N + 1 + nlen))
-                break
+            for N in sizes:
+                def call(e, env, N=N):
+                    if e.get('k') == 'mcall' and e['f'].split('::')[-1] == 'size' and strip(e['o']).get('id') == inp['id']:
+                        return N
+                    raise evalx.NotEvaluable('call')
+                try:
+                    env = local_consts(f, call)
+                    got = [evalx.ev(consts[k2], env, call) & 0xFF if k2 in consts else None for k2 in range(body_off)]
+                    hl = evalx.ev(hcall['a'][3], env, call)
+                except evalx.NotEvaluable as ex:
+                    ctx.note('R19f', key, 'framing expressions not evaluable (%s); not evaluated' % ex, f)
+                    problems = None
+                    break
+                want = [tagoct] + [(N >> (8 * (nlen - 1 - j))) & 0xFF for j in range(nlen)]
+                if got != want:
+                    problems.append('for a %d-octet key body the hash input starts with %s, the standard prescribes %s' % (N, got, want))
+                    break
+                if hl != N + 1 + nlen:
+                    problems.append('for a %d-octet key body %d octets are hashed instead of %d' % (N, hl, N + 1 + nlen))
+                    break
+        if problems is None:
+            continue
         # digest length handed out
         outp = f['params'][1]
         nout = None
+        cenv = local_consts(f)
         for st in walk(f['body']):
-            if st.get('k') == 'for' and isinstance(st.get('c'), dict) and st['c'].get('op') == '<' and strip(st['c']['a'][1]).get('k') == 'int':
+            if st.get('k') == 'for' and isinstance(st.get('c'), dict) and st['c'].get('op') == '<' and const_of(st['c']['a'][1], cenv) is not None:
                 if any(e.get('k') == 'mcall' and e['f'].endswith('push_back') and strip(e['o']).get('id') == outp['id'] for e in walk(st['b'])):
-                    nout = strip(st['c']['a'][1])['v']
+                    nout = const_of(st['c']['a'][1], cenv)
         if nout is None:
             # out.insert(out.end(), hash, hash + N)
             for st in walk(f['body']):
                 if st.get('k') == 'mcall' and st['f'].split('::')[-1] == 'insert' and strip(st.get('o')).get('id') == outp['id'] and len(st.get('a', [])) == 3:
-                    lo = ptr_offset(unwrap_iter(st['a'][1]), None)
-                    hi = ptr_offset(unwrap_iter(st['a'][2]), None)
+                    lo = ptr_offset(unwrap_iter(st['a'][1]), None, cenv)
+                    hi = ptr_offset(unwrap_iter(st['a'][2]), None, cenv)
                     if lo is not None and hi is not None:
                         nout = hi - lo
         if nout is not None and nout != dlen:
